@@ -1,4 +1,4 @@
-#!/usr/bin/env python3
+#!/venv/bin/python
 """Regenerate /verif/MANIFEST.json from the table below (single source of truth
 for the claimed checks).  Run after adding a check."""
 import json
@@ -8,16 +8,38 @@ ROOT = os.path.dirname(os.path.dirname(os.path.abspath(__file__)))
 
 GIT = 'GIT_CONFIG_COUNT=1 GIT_CONFIG_KEY_0=init.defaultBranch GIT_CONFIG_VALUE_0=master'
 
-# pid -> (engine, category, technique, level text, level note, design ref)
-CHECKS = {
-    'C16': ('E-hist', 'model_checking',
-            'explicit-state BFS over edit histories of the real DepGraph vs a node/edge-set reference; exhaustive enumeration of all DAGs <= 5 nodes, cyclic digraphs <= 4 nodes, nested graphs',
-            'Every concrete graph layout reachable by <= 4-6 editing operations over a 2-4 node alphabet is visited and compared, '
-            'through the public API, with a set-of-nodes/set-of-pairs reference, including derived graphs and aliasing; sort / reduction / closure / depends are '
-            'checked on every labelled DAG up to 5 nodes (thorough) and flatten on every small nested graph. Exhaustive within these bounds, which is what the property '
-            'quantifies over for <= 5 nodes; larger graphs are out of scope.',
-            'Nodes identified by identity as documented; small-scope hypothesis for histories longer than the depth bound.', '5/C16'),
-}
+# Claimed checks are discovered from vfw/props/c*.py (module attributes ENGINE, LEVEL, TECHNIQUE, LEVEL_TEXT,
+# LEVEL_NOTE, DESIGN_REF); a module without LEVEL_TEXT is not claimed.  Run with /venv/bin/python.
+import glob
+import importlib
+import sys
+sys.path.insert(0, ROOT)
+
+C16 = ('E-hist', 'model_checking',
+       'explicit-state BFS over edit histories of the real DepGraph vs a node/edge-set reference; exhaustive enumeration of all DAGs <= 5 nodes, cyclic digraphs <= 4 nodes, nested graphs',
+       'Every concrete graph layout reachable by <= 4-6 editing operations over a 2-4 node alphabet is visited and compared, '
+       'through the public API, with a set-of-nodes/set-of-pairs reference, including derived graphs and aliasing; sort / reduction / closure / depends are '
+       'checked on every labelled DAG up to 5 nodes (thorough) and flatten on every small nested graph. Exhaustive within these bounds, which is what the property '
+       'quantifies over for <= 5 nodes; larger graphs are out of scope.',
+       'Nodes identified by identity as documented; small-scope hypothesis for histories longer than the depth bound.', '5/C16')
+
+
+def discover():
+    checks = {}
+    for path in sorted(glob.glob(os.path.join(ROOT, 'vfw', 'props', 'c[0-9][0-9].py'))):
+        name = os.path.basename(path)[:-3]
+        mod = importlib.import_module('vfw.props.' + name)
+        pid = name.upper()
+        if pid == 'C16' and not hasattr(mod, 'LEVEL_TEXT'):
+            checks[pid] = C16
+            continue
+        if not getattr(mod, 'LEVEL_TEXT', None):
+            continue
+        checks[pid] = (mod.ENGINE, mod.LEVEL, mod.TECHNIQUE, mod.LEVEL_TEXT, mod.LEVEL_NOTE, mod.DESIGN_REF)
+    return checks
+
+
+CHECKS = discover()
 
 NOT_APPLICABLE = {
 }
